@@ -81,6 +81,8 @@ def translators():
   out['Src_mmc'] = lambda: translate_mmc.translate(REPO)
   import translate_sdml
   out['Src_sdml'] = lambda: translate_sdml.translate(REPO)
+  import translate_rca
+  out['Src_rca'] = lambda: translate_rca.translate(REPO)
   import translate_pins
   out['Src_pins'] = lambda: translate_pins.translate(REPO)
   try:
